@@ -662,6 +662,27 @@ def fam_c17(R, n):
             vs.append('#[regex("f%d+", |_| 0u32)]\n    F%d(%s u32),' % (j, j, fa))
         src = '\n'.join([dl] + ENUM_ATTRS + ['pub enum TA%d {' % k] + ['    ' + v for v in vs] + ['}'])
         out.append(dict(family='c17-all-attrs', src=src, meta={}))
+    # every part of an enum item other than attributes has to come through unchanged: visibility, generics with bounds and
+    # defaults, where clauses, discriminants, raw identifiers, field visibility, a missing trailing comma
+    headers = [('enum P0', ''), ('pub(crate) enum P1', ''), ('pub(in crate::lexer) enum P2', ''), ("pub enum P3<'a>", ''), ("pub enum P4<'s, T: Copy + Default>", ''),
+               ('pub enum P5<T>', 'where T: Copy + Default,'), ("pub enum P6<'a, 'b: 'a, T = u32>", "where T: 'a + Clone, &'b T: Sized"),
+               ('pub enum P7<T, U>', 'where\n    T: Into<u32>,\n    U: core::fmt::Debug'), ('pub enum r#P8', '')]
+    for k, (head, where) in enumerate(headers):
+        gen = []
+        if '<' in head:
+            if "'a" in head:
+                gen.append("lifetime = 'a")
+            if "'s" in head:
+                gen.append("lifetime = 's")
+            if 'T' in head.split('<', 1)[1]:
+                gen.append('type T = u32')
+            if 'U' in head.split('<', 1)[1]:
+                gen.append('type U = u8')
+        attrs = ['#[derive(Debug, Logos, Clone)]'] + (['#[logos(%s)]' % ', '.join(gen)] if gen else []) + ['#[repr(u8)]' if k == 0 else '#[allow(dead_code)]']
+        vs = ['#[token("a")]\n    A = 1,' if k == 0 else '#[token("a")]\n    A,', '/// doc\n    #[regex("b+")]\n    r#B,' if k % 2 else '#[regex("b+")]\n    B,',
+              '#[token("c", |_| 0u32)]\n    C(pub(crate) u32)' + ('' if k % 3 == 0 else ',')]
+        src = '\n'.join(attrs + [head + (' ' + where if where and '\n' not in where else '')] + ([where] if '\n' in where else []) + ['{'] + ['    ' + v for v in vs] + ['}'])
+        out.append(dict(family='c17-headers', src=src, meta={}))
     return out
 
 
